@@ -79,13 +79,19 @@ L0Of(files) == {files[j][3] : j \in {k \in 1..Len(files) : files[k][1] = 0}}
 D_Level0OneRun_ ==
   (IsStep /\ stopped) => /\ \A j \in 1..Len(cur.remote) : cur.remote[j][1] = 0 => cur.remote[j][2] = cur.remote[j][3]
                          /\ LET ids == L0Of(cur.remote) IN ids = {} \/ \A a \in ids : \A b \in a..cur.rpos : b \in ids
+\* (claimed, as C06 is, for histories without storage faults)
 D_LevelsContiguous_ ==
-  (IsStep /\ stopped) =>
+  (IsStep /\ stopped /\ ~cur.cfg.faults) =>
      \A lvl \in 1..8 : LET fs == FilesAt(cur.remote, lvl) IN
         /\ \A f \in fs : f[2] <= f[3]
         /\ \A f \in fs : \A g \in fs : (f # g) => (f[3] < g[2] \/ g[3] < f[2])
         /\ \A f \in fs : (\A g \in fs : g[2] >= f[2]) \/ (\E g \in fs : g[3] + 1 = f[2])
 D_SnapshotKept_ == (IsStep /\ stopped /\ snapSeen) => HasSnap(cur)
+
+(* C05: once failures stop the replica catches up: the second of two consecutive fault-free acknowledged-sync requests succeeds *)
+D_CatchesUp_ ==
+  (IsStep /\ l > t0 + 1 /\ cur.op = "SyncWait" /\ Log[l - 1].op = "SyncWait" /\ cur.faultsLeft = 0 /\ Log[l - 1].faultsLeft = 0
+          /\ Log[l - 2].faultsLeft = 0 /\ cur.res # "skip") => cur.ack
 
 (* C12: Close returns and leaves nothing behind *)
 D_StopReturns_ == (IsStep /\ cur.op = "DaemonStop") => cur.res # "hang"
@@ -101,6 +107,7 @@ D_ReplicaMonotone == V("D_ReplicaMonotone", D_ReplicaMonotone_)
 D_Level0OneRun == V("D_Level0OneRun", D_Level0OneRun_)
 D_LevelsContiguous == V("D_LevelsContiguous", D_LevelsContiguous_)
 D_SnapshotKept == V("D_SnapshotKept", D_SnapshotKept_)
+D_CatchesUp == V("D_CatchesUp", D_CatchesUp_)
 D_StopReturns == V("D_StopReturns", D_StopReturns_)
 D_NoLeakAfterStop == V("D_NoLeakAfterStop", D_NoLeakAfterStop_)
 D_SourceNotPinned == V("D_SourceNotPinned", D_SourceNotPinned_)
